@@ -2,56 +2,77 @@
     Property theorems only; the model is Addr/MemDisk.v, the proofs are in
     Addr/MemDiskProofs.v.
 
-    Reading guide.  [final h (opened d0)] is the running manager (memory and
+    Reading guide.  [final P h (opened d0)] is the running manager (memory and
     database) after the history [h] of database transactions, started by
-    opening the well-formed database [d0]; every transaction is committed,
-    aborted by its caller, aborted as a dry run, or has its commit failed, and
-    is followed by boundary queries (which may fill the caches).
+    opening (and unlocking) the well-formed database [d0]; every transaction is
+    committed, aborted by its caller, aborted as a dry run, or has its commit
+    failed, and is followed by boundary queries (which may fill the caches).
+    The operations are those of the address manager: new account, imported
+    (watch-only) account, rename, next / extend addresses, mark used, set
+    synced-to, set birthday (block), import key / script, reads, and - not
+    database operations, their effect on memory is immediate whatever becomes
+    of the transaction - Lock, Unlock, InvalidateAccountCache.
     [observe m d q] is the answer to query [q] of a manager with memory [m] on
-    database [d]; [reopen d] is the memory of a manager freshly opened on [d].
+    database [d]; [restart m d] is the memory of a manager freshly opened on [d]
+    and brought to the lock state of [m] (what a locked manager can say is
+    compared with what a locked restart says).
     Accounts are default (seed-derived) or watch-only (imported xpub with a
     fingerprint and an optional address-schema override).
     The queries are: address lookup with account / internal / imported / used /
-    address type / master-key fingerprint, last external / internal address,
-    account properties (name, next external and internal index, imported key
-    count, watch-only kind: key, fingerprint, schema), lookup by name, name by number,
-    last account, synced-to, block hash by height, birthday, birthday block.
+    address type / master-key fingerprint of the derivation path, last external
+    / internal address (with type and fingerprint), account properties (name,
+    next external and internal index, imported key count, kind: key,
+    fingerprint, schema; IsWatchOnly), lookup by name, name by number, last
+    account, synced-to, block hash by height, birthday, birthday block.
 
-    The pinned code updates memory before commit in several operations, so the
+    The code updates memory before commit in several operations, so the
     statement cannot hold for all histories (see [C08_refuted_at_K]); it is
-    proved for all histories outside the decidable trigger pattern [in_K rb]:
-    an aborted transaction holding rename / set-synced-to / set-birthday /
-    extend / import, or new-account followed by an address, last-address or
-    properties read, or next-addresses (when [rb]: always; otherwise only if
-    followed by an address lookup); a committed transaction holding extend
-    after next-addresses on the same account and branch, or SetSyncedTo(nil).
+    proved for all histories outside the decidable trigger pattern [in_K P]
+    (MemDisk.v, "The trigger patterns K").
 
-    [rb] is the model's one source-dependent parameter: does nextAddresses put
-    the address it reads back into the cache before commit (pinned: yes,
-    finding S4)?  Every theorem is proved for both values; the value of the
-    current source is Generated.AddrCache.next_caches_read_back. *)
+    [P : params] are the model's three source-dependent parameters - does
+    nextAddresses cache its read-back before commit ([p_rb], finding S4,
+    repaired), does extendAddresses update memory before commit ([p_ee],
+    finding S10), does RenameAccount ([p_re], finding S11)?  Every theorem is
+    proved for all eight values: for the code as it is AND for the code with
+    any of these findings repaired (memory updated in an OnCommit closure), in
+    which case the corresponding trigger leaves K.  The values of the current
+    source are regenerated into Generated.AddrCache. *)
 From stdpp Require Import gmap list numbers.
 From Coq Require Import ZArith NArith.
 From Verif Require Import Addr.MemDisk Addr.MemDiskProofs Generated.AddrCache.
 
 (** After every transaction boundary of every history outside K, whatever mix
     of committed and rolled-back transactions came before, the running manager
-    answers every query exactly as a freshly opened manager does. *)
-Theorem C08_outside_K : forall rb d0 h1 h2,
-  wf_disk d0 -> times_ok (h1 ++ h2) = true -> in_K rb (h1 ++ h2) = false ->
-  let s := final rb h1 (opened d0) in
-  forall q, observe (mem_of s) (disk_of s) q = observe (reopen (disk_of s)) (disk_of s) q.
+    answers every query exactly as a freshly opened manager (in the same lock
+    state) does. *)
+Theorem C08_outside_K : forall P d0 h1 h2,
+  wf_disk d0 -> times_ok (h1 ++ h2) = true -> in_K P (h1 ++ h2) = false ->
+  let s := final P h1 (opened d0) in
+  forall q, observe (mem_of s) (disk_of s) q = observe (restart (mem_of s) (disk_of s)) (disk_of s) q.
 Proof. exact memory_equals_restart_everywhere. Qed.
 Print Assumptions C08_outside_K.
+
+(** ... and what it reports as derivation information of an address it knows -
+    issued, extended ahead of use, or loaded from the database - is what
+    follows from the account's database row: the address type of the account's
+    (or the scope's) schema and the master-key fingerprint of the row. *)
+Theorem C08_derivation_info_is_the_rows : forall P d0 h x y a i im u ty fp,
+  wf_disk d0 -> times_ok h = true -> in_K P h = false ->
+  let s := final P h (opened d0) in
+  observe (mem_of s) (disk_of s) (QLookup x) = AAddr y a i im u ty fp ->
+  (ty, fp) = meta_of (disk_of s) x.
+Proof. exact derivation_info_is_the_rows. Qed.
+Print Assumptions C08_derivation_info_is_the_rows.
 
 (** A rolled-back transaction - caller abort, dry run, failed commit - made of
     address issuance and reads leaves the database as it was and every account
     entry in memory either untouched or freshly loaded from the committed row:
     no next index is advanced.  No hypothesis on the state: this holds after
     ANY history. *)
-Theorem C08_rollback_does_not_advance_indices : forall rb s ops f qs,
+Theorem C08_rollback_does_not_advance_indices : forall P s ops f qs,
   f <> Commit -> forallb issue_or_read ops = true ->
-  let s' := (run_tx rb {| tx_ops := ops; tx_fate := f; tx_queries := qs |} s).1 in
+  let s' := (run_tx P {| tx_ops := ops; tx_fate := f; tx_queries := qs |} s).1 in
   disk_of s' = disk_of s /\
   forall a ai, m_accts (mem_of s') !! a = Some ai ->
     m_accts (mem_of s) !! a = Some ai \/
@@ -62,28 +83,31 @@ Print Assumptions C08_rollback_does_not_advance_indices.
 
 (** The next committed request issues the very addresses a restarted wallet
     would issue, and leaves the same database - for every history outside
-    [in_K_idx], the part of K that can disturb an index (an aborted extend, an
-    aborted new-account that is read back, extend after next-addresses in one
-    committed transaction).  In particular after any mix of rolled-back
-    issuance (dry runs), renames, sync updates and imports. *)
-Theorem C08_next_issue_equals_restart : forall rb d0 h a b n,
-  wfL d0 -> in_K_idx h = false ->
-  let s := final rb h (opened d0) in
-  (run_tx rb (issue_tx a b n) s).2.1 = (run_tx rb (issue_tx a b n) (opened (disk_of s))).2.1 /\
-  disk_of (run_tx rb (issue_tx a b n) s).1 = disk_of (run_tx rb (issue_tx a b n) (opened (disk_of s))).1.
+    [in_K_idx], the part of K that can disturb an index.  In particular after
+    any mix of rolled-back issuance (dry runs), renames, sync updates and
+    imports. *)
+Theorem C08_next_issue_equals_restart : forall P d0 h a b n,
+  wfL d0 -> in_K_idx P h = false ->
+  let s := final P h (opened d0) in
+  (run_tx P (issue_tx a b n) s).2.1 = (run_tx P (issue_tx a b n) (restarted s)).2.1 /\
+  disk_of (run_tx P (issue_tx a b n) s).1 = disk_of (run_tx P (issue_tx a b n) (restarted s)).1.
 Proof. exact next_issue_equals_restart. Qed.
 Print Assumptions C08_next_issue_equals_restart.
 
 (** ... and the index-related answers (last addresses, key counts) agree with
     the restarted manager outside [in_K_idx], whatever else diverged. *)
-Theorem C08_index_queries_outside_K_idx : forall rb d0 h a,
-  wfL d0 -> in_K_idx h = false ->
-  let s := final rb h (opened d0) in
-  (forall b, observe (mem_of s) (disk_of s) (QLast a b)
-             = observe (reopen (disk_of s)) (disk_of s) (QLast a b)) /\
+Theorem C08_index_queries_outside_K_idx : forall P d0 h a,
+  wfL d0 -> in_K_idx P h = false ->
+  let s := final P h (opened d0) in
+  (forall b, match observe (mem_of s) (disk_of s) (QLast a b),
+                   observe (restart (mem_of s) (disk_of s)) (disk_of s) (QLast a b) with
+             | ALast x _ _, ALast x' _ _ => x = x'
+             | AErr e, AErr e' => e = e'
+             | _, _ => False
+             end) /\
   match observe (mem_of s) (disk_of s) (QProps a),
-        observe (reopen (disk_of s)) (disk_of s) (QProps a) with
-  | AProps _ e i _ _, AProps _ e' i' _ _ => e = e' /\ i = i'
+        observe (restart (mem_of s) (disk_of s)) (disk_of s) (QProps a) with
+  | AProps _ e i _ _ _, AProps _ e' i' _ _ _ => e = e' /\ i = i'
   | AErr e, AErr e' => e = e'
   | _, _ => False
   end.
@@ -91,45 +115,62 @@ Proof. exact index_queries_equal_restart. Qed.
 Print Assumptions C08_index_queries_outside_K_idx.
 
 (** K_idx is a part of K. *)
-Theorem C08_K_idx_within_K : forall rb h, in_K_idx h = true -> in_K rb h = true.
+Theorem C08_K_idx_within_K : forall P h, in_K_idx P h = true -> in_K P h = true.
 Proof. exact in_K_idx_sub. Qed.
 Print Assumptions C08_K_idx_within_K.
 
-(** Inside K the statement is false: one witness per trigger, each a history in
-    K starting from the database [waddrmgr.Create] leaves, with a query the
-    running manager answers differently from a freshly opened one; for the two
+(** What wallet.ImportAccountDryRun does to the address manager - create an
+    imported account, read it, issue [k] external and [k] internal addresses,
+    read it again, EVICT it from the account cache, roll back - is outside K
+    unless issuance caches its read-back: the wallet's own always-rolled-back
+    transaction leaves no trace, by [C08_outside_K]. *)
+Theorem C08_import_dry_run_outside_K : forall P n nm w k qs,
+  tx_k P {| tx_ops := dry_import_ops n nm w k; tx_fate := AbortDryRun; tx_queries := qs |} = p_rb P.
+Proof. exact dry_import_outside_K. Qed.
+Print Assumptions C08_import_dry_run_outside_K.
+
+(** Inside K the statement is false: one witness per trigger, each a history
+    starting from the database [waddrmgr.Create] leaves, with a query the
+    running manager answers differently from a freshly opened one.  A trigger
+    that depends on the source is inside K, and diverges, exactly when the
+    source has the eager update ([hits (p_re P)], [hits (p_ee P)]); for the
     index triggers also the next committed issuance differs from the restarted
-    wallet's.  (Both values of [rb].) *)
-Theorem C08_refuted_at_K : forall rb,
-  let differs h q :=
-    in_K rb h = true /\
-    let s := final rb h (opened d_wit) in
-    observe (mem_of s) (disk_of s) q <> observe (reopen (disk_of s)) (disk_of s) q in
+    wallet's. *)
+Theorem C08_refuted_at_K : forall P,
+  let hits (e : bool) h q :=
+    in_K P h = e /\
+    (e = true ->
+     let s := final P h (opened d_wit) in
+     observe (mem_of s) (disk_of s) q <> observe (restart (mem_of s) (disk_of s)) (disk_of s) q) in
   wf_disk d_wit /\
-  differs w_rename (QProps 0) /\               (* account name *)
-  differs w_synced QSynced /\                  (* synced-to *)
-  differs w_extend (QProps 0) /\               (* next index after extend *)
-  differs w_extend (QLast 0 false) /\          (* last address after extend *)
-  differs w_issue_lookup (QLookup (Chain 0 true 0)) /\   (* phantom address: issued, looked up, rolled back *)
-  differs w_birthday QBirthday /\
-  differs w_import (QLookup (ImpKey 0)) /\     (* phantom imported address *)
-  differs w_newacct_read (QProps 1) /\         (* phantom account *)
-  differs w_stale_callback (QProps 0) /\       (* committed: stale OnCommit after extend *)
-  differs w_synced_nil QSynced /\              (* committed: SetSyncedTo(nil) time stamp *)
-  (let s := final rb w_extend (opened d_wit) in
-   (run_tx rb (issue_tx 0 false 1) s).2.1 <> (run_tx rb (issue_tx 0 false 1) (opened (disk_of s))).2.1) /\
-  (let s := final rb w_stale_callback (opened d_wit) in
-   (run_tx rb (issue_tx 0 false 1) s).2.1 <> (run_tx rb (issue_tx 0 false 1) (opened (disk_of s))).2.1).
+  hits (p_re P) w_rename (QProps 0) /\         (* account name, eager rename rolled back *)
+  hits true w_rename_reload (QProps 0) /\      (* account name: renamed row loaded, rolled back *)
+  hits true w_synced QSynced /\                (* synced-to *)
+  hits (p_ee P) w_extend (QProps 0) /\         (* next index after an eager extend *)
+  hits (p_ee P) w_extend (QLast 0 false) /\    (* last address after an eager extend *)
+  hits true w_issue_lookup (QLookup (Chain 0 true 0)) /\   (* phantom address: issued, looked up, rolled back *)
+  hits true w_birthday QBirthday /\
+  hits true w_import (QLookup (ImpKey 0)) /\   (* phantom imported address *)
+  hits true w_newacct_read (QProps 1) /\       (* phantom account *)
+  hits true w_dry_import_kept (QProps 1) /\    (* the import dry run WITHOUT its eviction: phantom account *)
+  hits true w_evict_reload (QProps 0) /\       (* evicted, loaded again from the uncommitted row *)
+  hits (p_ee P) w_stale_callback (QProps 0) /\ (* committed: stale OnCommit after an eager extend *)
+  hits true w_synced_nil QSynced /\            (* committed: SetSyncedTo(nil) time stamp *)
+  (p_ee P = true ->
+   let s := final P w_extend (opened d_wit) in
+   (run_tx P (issue_tx 0 false 1) s).2.1 <> (run_tx P (issue_tx 0 false 1) (restarted s)).2.1) /\
+  (p_ee P = true ->
+   let s := final P w_stale_callback (opened d_wit) in
+   (run_tx P (issue_tx 0 false 1) s).2.1 <> (run_tx P (issue_tx 0 false 1) (restarted s)).2.1).
 Proof.
-  intros rb. cbv zeta.
-  pose proof (witnesses_in_K rb) as HK. simpl in HK.
+  intros P. cbv zeta.
+  destruct (witnesses_in_K P) as (K1 & K2 & K3 & _ & HK & _). simpl in HK.
   repeat (apply andb_true_iff in HK as [?HK0 HK]).
-  repeat match goal with H : _ && _ = true |- _ => apply andb_true_iff in H as [? ?] end.
-  destruct (witnesses_diverge rb) as (D1 & D2 & D3 & D4 & D5 & D6 & D7 & D8 & D9 & D10).
-  destruct (witnesses_issue_differs rb) as (_ & I1 & _ & I2).
+  destruct (witnesses_diverge P) as (D1 & D2 & D3 & D4 & D5 & D6 & D7 & D8 & D9 & D10 & D11 & _ & D13 & D14).
+  destruct (witnesses_issue_differs P) as (_ & I1 & _ & I2 & _).
   split; [apply wf_created|].
   repeat split; try assumption;
-    first [ apply diverges_spec; assumption | apply issue_differs_spec; assumption ].
+    try (intros He; first [ apply diverges_spec | apply issue_differs_spec ]; congruence).
 Qed.
 Print Assumptions C08_refuted_at_K.
 
@@ -137,64 +178,93 @@ Print Assumptions C08_refuted_at_K.
     a transaction that returns ErrDryRunRollBack) leaves a phantom address - it
     is inside K and diverges - if and only if the read-back is cached before
     commit; it never touches an index. *)
-Theorem C08_dry_run_issuance : forall rb,
-  in_K rb w_phantom = rb /\ times_ok w_phantom = true /\ in_K_idx w_phantom = false /\
-  diverges rb w_phantom (QLookup (Chain 0 true 0)) = rb.
+Theorem C08_dry_run_issuance : forall P,
+  in_K P w_phantom = p_rb P /\ times_ok w_phantom = true /\ in_K_idx P w_phantom = false /\
+  diverges P w_phantom (QLookup (Chain 0 true 0)) = p_rb P.
 Proof. exact dry_run_issuance_phantom. Qed.
 Print Assumptions C08_dry_run_issuance.
 
-(** The assumptions the model transcribes hold in the source as it is now
-    (regenerated by lib/extract_c08.py - from the shape of the source, or, when
-    the shape is not recognised, from the behaviour of the built code on the
-    witness scenarios): nextAddresses touches indices / last addresses / cache
-    only in its registered OnCommit closure; extendAddresses and RenameAccount
-    (both account-row kinds) update memory before commit. *)
+(** The assumptions the model transcribes without a parameter hold in the
+    source as it is now (regenerated by lib/extract_c08.py - from the shape of
+    the source, or, when the shape is not recognised, from the behaviour of the
+    built code on the witness scenarios): nextAddresses touches indices / last
+    addresses / cache only in its registered OnCommit closure; RenameAccount
+    treats default and watch-only account rows alike; extendAddresses records
+    the account's master-key fingerprint in the derivation path of the
+    addresses it builds (finding S14, repaired).  WHEN extendAddresses and
+    RenameAccount update memory is not obliged either way: both shapes are
+    covered by the theorems above. *)
 Theorem C08_model_assumptions_hold_in_source :
   next_commits_memory_in_closure = true /\
-  extend_updates_memory_eagerly = true /\
-  rename_updates_cached_name = true.
+  rename_covers_both_row_kinds = true /\
+  extend_records_fingerprint = true.
 Proof. repeat split; reflexivity. Qed.
 Print Assumptions C08_model_assumptions_hold_in_source.
 
 (** Non-vacuity. *)
 
-(** A history OUTSIDE K that mixes committed and rolled-back transactions
-    (issuance, rename, new account, mark-used, sync; aborted: new account,
-    mark-used, birthday block, reads): the hypotheses of [C08_outside_K] hold. *)
+(** A history OUTSIDE K, for every value of the parameters, that mixes
+    committed and rolled-back transactions: issuance, rename, new account,
+    imported account, mark-used, sync, import; the imported account extended
+    ahead of use (public derivation) cold and warm; the manager locked across
+    issuance, extension and an eviction, then unlocked; aborted: new account,
+    mark-used, birthday block, reads, the wallet's import dry run.  The
+    hypotheses of [C08_outside_K] hold, and the answers are the expected ones:
+    the extended addresses of the imported account carry ITS fingerprint. *)
 Example C08_nonvacuous_outside_K : forall rb,
-  let hw := {| w_key := 3; w_fp := 287454020; w_schema := Some (3%N, 4%N) |} in
-  let h := [ {| tx_ops := [ONext 0 false 2; ORename 0 7; ONewAccount 8; ONewAccountWO 10 hw];
+  let P := {| p_rb := false; p_ee := rb; p_re := rb |} in
+  let h := [ {| tx_ops := [ONext 0 false 2; ONewAccount 8; ONewAccountWO 10 wo1];
                 tx_fate := Commit; tx_queries := [QProps 0; QProps 2; QLookup (Chain 0 false 1)] |};
              {| tx_ops := [ONewAccount 9; OMarkUsed (Chain 0 false 0); OSetBdayBlock stamp1 true];
                 tx_fate := AbortCaller; tx_queries := [QProps 1; QLast 0 false] |};
              {| tx_ops := [ORead (QLookup (Chain 0 false 0)); ORead (QProps 1)]; tx_fate := AbortDryRun;
                 tx_queries := [] |};
-             {| tx_ops := [OExtend 1 true 3; ONext 1 true 1; OSetSynced stamp1; OImport (ImpScript 0) (Some stamp1);
-                           ONext 2 false 2; ORename 2 11; OExtend 2 true 9];
+             {| tx_ops := dry_import_ops 3 12 {| w_key := 4; w_fp := 9; w_schema := None |} 3;
+                tx_fate := AbortDryRun; tx_queries := [QProps 3] |};
+             {| tx_ops := [OExtend 1 true 3; OSetSynced stamp1; OImport (ImpScript 0) (Some stamp1) false;
+                           OExtend 2 false 2; OExtend 2 true 9];
                 tx_fate := Commit; tx_queries := [QLookup (ImpScript 0); QLookup (Chain 2 false 1)] |};
-             {| tx_ops := [OMarkUsed (Chain 1 true 4)]; tx_fate := CommitFails; tx_queries := [QSynced] |} ] in
-  in_K rb h = false /\ times_ok h = true /\
-  let s := final rb h (opened d_wit) in
-  observe (mem_of s) (disk_of s) (QProps 1) = AProps 8 0 5 0 None /\
-  observe (mem_of s) (disk_of s) (QProps 0) = AProps 7 2 0 0 None /\
-  (* the imported account: renamed while cached, in a committed transaction *)
-  observe (mem_of s) (disk_of s) (QProps 2) = AProps 11 2 0 0 (Some hw) /\
+             {| tx_ops := [OLock; OInvalidate 1; ONext 0 false 1; ONext 1 true 1; OExtend 2 false 6; ONewAccount 13];
+                tx_fate := Commit; tx_queries := [QProps 0; QLast 2 false] |};
+             {| tx_ops := [OMarkUsed (Chain 1 true 4); OUnlock]; tx_fate := CommitFails; tx_queries := [QSynced] |};
+             {| tx_ops := [ONext 2 false 2; ORename 2 11; ORename 0 7]; tx_fate := Commit; tx_queries := [] |} ] in
+  in_K P h = false /\ times_ok h = true /\
+  let s := final P h (opened d_wit) in
+  observe (mem_of s) (disk_of s) (QProps 1) = AProps 8 0 5 0 None false /\
+  observe (mem_of s) (disk_of s) (QProps 0) = AProps 7 3 0 0 None false /\
+  (* the imported account: extended, renamed while cached, in committed transactions *)
+  observe (mem_of s) (disk_of s) (QProps 2) = AProps 11 9 10 0 (Some wo1) true /\
+  observe (mem_of s) (disk_of s) (QProps 3) = AErr EAccountNotFound /\
   observe (mem_of s) (disk_of s) (QLookup (Chain 2 false 1))
     = AAddr (Chain 2 false 1) 2 false false false 3 287454020 /\
+  observe (mem_of s) (disk_of s) (QLookup (Chain 2 false 6))
+    = AAddr (Chain 2 false 6) 2 false false false 3 287454020 /\
+  observe (mem_of s) (disk_of s) (QLast 2 false) = ALast (Chain 2 false 8) 3 287454020 /\
   observe (mem_of s) (disk_of s) (QLookup (Chain 1 true 4)) = AAddr (Chain 1 true 4) 1 true false false 4 0.
 Proof. intros []; vm_compute; repeat split. Qed.
+
+(** While the manager is locked, a default account says IsWatchOnly - and so
+    does the locked restart; NewAccount is refused. *)
+Example C08_nonvacuous_locked : forall P,
+  let h := [ {| tx_ops := [OLock; ONewAccount 5]; tx_fate := AbortCaller; tx_queries := [QProps 0] |} ] in
+  in_K P h = false /\
+  let s := final P h (opened d_wit) in
+  (run_hist P h (opened d_wit)).2 = [([AOk; AErr ELocked], [AProps 2 0 0 0 None true])] /\
+  observe (restart (mem_of s) (disk_of s)) (disk_of s) (QProps 0) = AProps 2 0 0 0 None true.
+Proof. intros [[] [] []]; vm_compute; repeat split. Qed.
 
 (** The scenario the property names, on the source as it is now: dry-run
     issuance mixed with other rolled-back updates is outside K_idx; the next
     committed request issues index 1, exactly what the restarted manager
     issues. *)
 Example C08_nonvacuous_dry_run :
-  let rb := next_caches_read_back in
+  let P := {| p_rb := next_caches_read_back; p_ee := extend_updates_memory_eagerly;
+              p_re := rename_updates_memory_eagerly |} in
   let h := [ {| tx_ops := [ONext 0 true 1]; tx_fate := Commit; tx_queries := [QProps 0] |};
              {| tx_ops := [ONext 0 true 2; ORename 0 7; OSetSynced stamp1]; tx_fate := AbortDryRun; tx_queries := [QProps 0] |};
              {| tx_ops := [ONext 0 true 1]; tx_fate := CommitFails; tx_queries := [] |} ] in
-  in_K rb h = true /\ in_K_idx h = false /\
-  let s := final rb h (opened d_wit) in
-  (run_tx rb (issue_tx 0 true 1) s).2.1 = [AAddrs [Chain 0 true 1]] /\
-  (run_tx rb (issue_tx 0 true 1) (opened (disk_of s))).2.1 = [AAddrs [Chain 0 true 1]].
+  in_K P h = true /\ in_K_idx P h = false /\
+  let s := final P h (opened d_wit) in
+  (run_tx P (issue_tx 0 true 1) s).2.1 = [AAddrs [Chain 0 true 1]] /\
+  (run_tx P (issue_tx 0 true 1) (restarted s)).2.1 = [AAddrs [Chain 0 true 1]].
 Proof. vm_compute. repeat split. Qed.
